@@ -35,6 +35,8 @@ contract('ikesa.IkeSa._process_response', params={'message': MSG}, returns=Opt(B
              'accepted-once': 'implies(message.message_id == old(self.my_msg_id) and 34 <= message.exchange_type <= 37, '
                               'handled == old(handled) + 1)',
              'at-most-once': 'handled <= old(handled) + 1',
+             # I6 survives every path (also the unknown-exchange-type one, where only my_msg_id moves)
+             'C16:successor': 'implies(self.state == 20 or self.state == 16, self.new_ike_sa is not None)',
              'peer-window-untouched': 'self.peer_msg_id == old(self.peer_msg_id)',
              'C09:inv': 'implies(message.message_id == old(self.my_msg_id) and 34 <= message.exchange_type <= 37, '
                         'inv_ikesa(self))',
@@ -67,6 +69,7 @@ contract('ikesa.IkeSa.process_message', params={'data': Bytes}, returns=Opt(Byte
                                       'and old(self.peer_msg_id) == 1)',
              'C13:dpd-reset-only-authentic': 'implies(self.start_dpd_at != old(self.start_dpd_at), '
                                              'old(self.peer_crypto) is None or protected_seen)',
+             'C16:successor': 'implies(self.state == 20 or self.state == 16, self.new_ike_sa is not None)',
              # (Inv preservation is stated on _process_request / _process_response; an authenticated response
              # with an unknown exchange type and the expected Message ID advances my_msg_id without a handler
              # -- observation recorded in DESIGN.md section 7, no listed property forbids it)
